@@ -44,6 +44,12 @@ structure Fns where
   isWang : Val → Bool
   /-- `fc2 * frequency_scale_factor**2` (deprecated constructor option) -/
   scale : Val → Val
+  /-- `Phonopy.forces = f` on a dataset value (`_set_forces_energies`, target "forces") -/
+  setF : Val → Val → Val
+  /-- `Phonopy.supercell_energies = e` on a dataset value -/
+  setE : Val → Val → Val
+  /-- the displacements of a dataset value (what the displaced supercells are built from) -/
+  dispOf : Val → Val
 
 /-- what a heap cell is: a force-constant array, a NAC-parameter dict, a dataset dict -/
 inductive Kind | fc | nac | ds
@@ -117,6 +123,12 @@ inductive Op
   | newArr (v : Val) (own : Bool) (k : Kind)
   | setFc (a : ArrRef)
   | produceFc
+  /-- `ph.forces = f` -/
+  | setForces (f : Val)
+  /-- `ph.supercell_energies = e` -/
+  | setEnergies (e : Val)
+  /-- `ph.produce_force_constants(forces=f)` -/
+  | produceFcWith (f : Val)
   | symmetrizeFc (level : Nat)
   | symmetrizeFcSpaceGroup
   | cutoff (r : Nat)
@@ -248,6 +260,22 @@ def step (F : Fns) (s : St) : Op → St × Out
     | none => (s, .err .noDataset)
     | some ds =>
       fin (setDMIfMasses F (s.h.alloc (F.produce (s.h.cells ds)) true .fc) { s.o with fc := some s.h.next })
+  | .setForces f =>
+    -- `_set_forces_energies` writes into the stored (deep-copied) dataset; the caller's forces are copied
+    match s.o.dataset with
+    | none => (s, .err .noDataset)
+    | some ds => (⟨s.h.write ds (F.setF f (s.h.cells ds)), s.o⟩, .ok)
+  | .setEnergies e =>
+    match s.o.dataset with
+    | none => (s, .err .noDataset)
+    | some ds => (⟨s.h.write ds (F.setE e (s.h.cells ds)), s.o⟩, .ok)
+  | .produceFcWith f =>
+    -- `if forces is not None: self.forces = forces`, then as `produceFc`
+    match s.o.dataset with
+    | none => (s, .err .noDataset)
+    | some ds =>
+      let h1 := s.h.write ds (F.setF f (s.h.cells ds))
+      fin (setDMIfMasses F (h1.alloc (F.produce (h1.cells ds)) true .fc) { s.o with fc := some h1.next })
   | .symmetrizeFc level => inPlace F s (F.sym level)
   | .symmetrizeFcSpaceGroup => inPlace F s F.symSG
   | .cutoff r => inPlace F s (F.cut r)
@@ -295,7 +323,8 @@ def step (F : Fns) (s : St) : Op → St × Out
     | some ds =>
       match s.o.disps with
       | some v => (s, .val (some v))
-      | none => (⟨s.h, { s.o with disps := some (s.h.cells ds) }⟩, .val (some (s.h.cells ds)))
+      | none =>
+        (⟨s.h, { s.o with disps := some (F.dispOf (s.h.cells ds)) }⟩, .val (some (F.dispOf (s.h.cells ds))))
 
 def run (F : Fns) : St → List Op → St
   | s, [] => s
@@ -341,7 +370,7 @@ def specQuery (F : Fns) (sp : Spec) : Query → Obs
   | .getNac => .val sp.nac
   | .getMasses => .val sp.masses
   | .getDataset => .val sp.dataset
-  | .getDisps => .val sp.dataset
+  | .getDisps => .val (sp.dataset.map F.dispOf)
 
 /-- the arrays an object can reach -/
 def Obj.refs (o : Obj) : List ArrRef :=
